@@ -425,7 +425,7 @@ struct VSys {
                 "Remove(\"a\")", "Remove(\"b\",1)", "Remove(String \"a\")", "Remove(String \"k\")", "RemoveIndex(0)", "RemoveIndex(1)", "RemoveIndex(Size)",
                 "Reset", "Compress", "Sort", "Sort desc",
                 "Get(\"b\",1)=5u", "Get(StringView \"c\")=\"s\"", "Insert(\"a\",6u)", "[StringView \"b\"]=null", "[String&& \"c\"]=true", "[const String& \"a\"]=-3",
-                "SetPointerToValue(&T)", "SetPointerToValue(nullptr)", "AddPointerToValue(&T)",
+                "SetPointerToValue(&T)", "AddPointerToValue(&T)",
             };
             for (auto p : paths) {
                 for (auto a : acts) {
@@ -479,8 +479,8 @@ struct VSys {
                 if (m.had_removal) {
                     return nullptr;
                 }
-                if (idx < m.members.size() && m.members[idx].second.k != MV::U) {
-                    return &m.members[idx].second;
+                if (idx < m.members.size()) {
+                    return &m.members[idx].second; // positional access into an object without removals: the member at that slot
                 }
             }
             m   = MV();
